@@ -492,7 +492,7 @@ PROPS = {
                      "Stun.C10L2.k1_history_other_start_untouched", "Stun.C10L2.blocked_write_failure_alone",
                      "Stun.C10L2.f12_start_error_after_handler_ran", "Stun.C10L2.start_blocked_failure_alone",
                      "Stun.C10L2.k1b_history", "Stun.C10L2.agent_start_failure_alone", "Stun.C10L2.agent_start_ok_alone",
-                     "Stun.Client.retransmit_split2",
+
                      "Stun.Client.retransmit_split", "Stun.Client.start_split", "Stun.ClientProofs.run_spec", "Stun.ClientProofs.run_eq",
                      "Stun.ClientProofs.callback_spec", "Stun.ClientProofs.retransmit_spec"],
         "streams": ["client-hist", "client-conc"], "level": "proof", "predicate": pred_client("C10"),
